@@ -486,7 +486,53 @@ def rule_paired_keys_read_by_script(ctx: Ctx, rep: Report) -> None:
     rep.floor(rule, 3)
 
 
+def rule_annex_needs_two_elements(ctx: Ctx, rep: Report) -> None:
+    """C16.annex_needs_two_elements: BIP341: "if there are at least two witness elements,
+    and the first byte of the last element is 0x50, this last element is
+    called annex". The three readers of a taproot witness -- the script
+    engine, the sig_hash witness splitter, and silent payments' input-key
+    extraction -- test the prefix only together with the count: a key-path
+    witness is one signature, one in 256 of which begins with 0x50, and a
+    reader that pops it as an annex skips an input the sender counted."""
+    rule = "C16.annex_needs_two_elements"
+    n = 0
+    for q, fi in sorted(ctx.prog.functions.items()):
+        for c in own_nodes(fi.node):
+            if not (isinstance(c, ast.Compare) and len(c.ops) == 1 and isinstance(c.ops[0], (ast.Eq, ast.NotEq))):
+                continue
+            left, right = c.left, c.comparators[0]
+            if not (isinstance(left, ast.Subscript) and isinstance(left.value, ast.Subscript) and norm(left.value.slice) == "-1" and norm(left.slice) in (":1", "0")):
+                continue
+            try:
+                v = ctx.fold(right, fi.module)
+            except Exception:  # noqa: BLE001
+                continue
+            if v not in (b"\x50", 0x50):
+                continue
+            stack = norm(left.value.value)
+            n += 1
+            counted = False
+            p_ = parent(c)
+            child = c
+            while p_ is not None and p_ is not fi.node:
+                tests = []
+                if isinstance(p_, ast.BoolOp) and isinstance(p_.op, ast.And):
+                    tests = [t for t in p_.values if t is not child]
+                elif isinstance(p_, ast.If) and child in p_.body:
+                    tests = [p_.test]
+                for t in tests:
+                    for s_ in (ast.walk(t) if isinstance(t, ast.BoolOp) else [t]):
+                        if norm(s_).replace(" ", "") in (f"len({stack})>=2", f"len({stack})>1", f"1<len({stack})", f"2<=len({stack})"):
+                            counted = True
+                child, p_ = p_, parent(p_)
+            rep.ob(rule, f"{q}:{norm(c)[:40]}", counted, fi.where(c), "tested with `at least two elements`" if counted else
+                   f"`{norm(c)}` calls the last element an annex whatever the count: a lone 64-byte signature beginning with 0x50 is popped as one")
+    rep.floor(rule, 3)
+
+
 RULES = [
+    ("C16.annex_needs_two_elements", rule_annex_needs_two_elements),
+
     ("C16.paired_keys_read_by_script", rule_paired_keys_read_by_script),
 
     ("C16.taproot_input_key_is_the_output_key", rule_taproot_input_key_is_the_output_key),
